@@ -8,6 +8,9 @@ Line-protocol driver for C01 (and, with `crash` / `restart`, C08). Protocol (har
   deliver <id> <hint|->      Deliver, then Verify until the queue is empty                  -> state line
   burst <ids>                every id delivered (serialised, no hint); final answer only    -> td=<n>
   crash                      drop the volatile state                                        -> state line
+  crashdeliver <id> <k>      serialised delivery of <id> killed just before its k-th RocksDB commit
+                             (k ≥ 1): the persisted state at that point, volatile state dropped   -> state line
+  commits                    number of RocksDB commits the model has performed so far          -> <n>
   restart <maxEpochLen> <order|->   crash, then re-deliver `scanList` (InitLoadUnverified)  -> state line
   scan <maxEpochLen> <order|->      the scan list only                                      -> ids
 
@@ -67,6 +70,25 @@ def doRestart (T : Tree) (mel : Nat) (order : List Nat) (s : State) : State × O
     let r := deliverQ T [] acc.1 b
     (r.1, acc.2 ++ r.2)) (s0, [])
 
+/-- the states between the individual RocksDB commits of one serialised delivery (each micro-step
+of `deliver` / `verifyHead` performs at most one commit) -/
+def microStates (T : Tree) (s : State) (b : Nat) : List State :=
+  if b = 0 then [s] else
+  let s' := { s with seen := upd s.seen b true }
+  if !T.nc b then [s, { s' with invalid := upd s'.invalid b true }] else
+  let s1 := { s' with stored := upd s'.stored b true, commits := s'.commits + 1 }
+  let r := (route T s1 b).1
+  let searchStates := (List.range (poolBound r.pool + 1)).foldl
+    (fun (acc : (State × Out) × List State) c =>
+      let n := stepPool T r.pool acc.1 c
+      (n, acc.2 ++ [n.1])) ((r, []), [])
+  let afterSearch := searchStates.1.1
+  let drainStates := (List.range afterSearch.queue.length).foldl
+    (fun (acc : State × List State) _ =>
+      let n := (verifyHead T acc.1).1
+      (n, acc.2 ++ [n])) (afterSearch, [])
+  [s, s1, r] ++ searchStates.2 ++ drainStates.2
+
 def step (d : St) (ts : List String) : St × String :=
   match ts with
   | ["blk", i, p, n, e, w, nc, ok] =>
@@ -88,6 +110,15 @@ def step (d : St) (ts : List String) : St × String :=
       let s := l.foldl (fun s b => (deliverQ T [] s b).1) (getState d)
       ({ d with st := some s }, s!"td={s.tipTd}")
     | none => (d, "bad-op")
+  | ["crashdeliver", i, k] =>
+    match parseNat? i, parseNat? k with
+    | some i, some k =>
+      let s := getState d
+      match (microStates (treeOf d.decls) s i).find? (fun m => m.commits + 1 == s.commits + k) with
+      | some m => let c := crash m; ({ d with st := some c }, stateLine d.decls c [])
+      | none => (d, "bad-op")
+    | _, _ => (d, "bad-op")
+  | ["commits"] => (d, s!"{(getState d).commits}")
   | ["crash"] =>
     let s := crash (getState d)
     ({ d with st := some s }, stateLine d.decls s [])
@@ -95,7 +126,7 @@ def step (d : St) (ts : List String) : St × String :=
     match parseNat? m, parseNatList? o with
     | some m, some o =>
       let r := doRestart (treeOf d.decls) m o (getState d)
-      ({ d with st := some r.1 }, stateLine d.decls r.1 r.2)
+      ({ d with st := some r.1 }, stateLine d.decls r.1 [])
     | _, _ => (d, "bad-op")
   | ["scan", m, o] =>
     match parseNat? m, parseNatList? o with
